@@ -14,7 +14,7 @@ use snafu::ResultExt;
 
 use crate::{
     efmt::Format, errors::ParseSnafu, Duration, Epoch, HifitimeError, TimeScale, Unit, Weekday,
-    ET_OFFSET_US, MJD_J1900, MJD_OFFSET, NANOSECONDS_PER_DAY, UNIX_REF_EPOCH,
+    MJD_J1900, MJD_OFFSET, NANOSECONDS_PER_DAY, UNIX_REF_EPOCH,
 };
 
 // Defines the methods that should be classmethods in Python, but must be redefined as per https://github.com/PyO3/pyo3/issues/1003#issuecomment-844433346
@@ -239,7 +239,7 @@ impl Epoch {
             days.is_finite(),
             "Attempted to initialize Epoch with non finite number"
         );
-        Self::from_jde_tdb(days)
+        Self::from_jde_in_time_scale(days, TimeScale::ET)
     }
 
     #[must_use]
@@ -249,7 +249,7 @@ impl Epoch {
             days.is_finite(),
             "Attempted to initialize Epoch with non finite number"
         );
-        Self::from_jde_tai(days) - Unit::Microsecond * ET_OFFSET_US
+        Self::from_jde_in_time_scale(days, TimeScale::TDB)
     }
 
     #[must_use]
